@@ -80,8 +80,11 @@ package rapidcore
 //@ spec srvBuffered(s *Server, id string) bool = srvAccepts(s, id) && old(s.invokeCtx.ReplyStream) != nil && !old(s.invokeCtx.Direct)
 //@ spec noReplyWritten() bool = ghost(httpWrites) == old(ghost(httpWrites))
 
+//@ modset serverReply = s.runtimeState, all(InvokeContext.ReplySent), all(InvokeContext.Direct), httpOut, all(interop.Reset.InvokeResponseMetrics), all(interop.Reset.InvokeResponseMode), all(interop.InvokeResponseMetrics.RuntimeCalledResponse)
+
 //@ func (*Server).sendResponseUnsafe
 //@   requires held(s)
+//@   modifies all(InvokeContext.ReplySent), all(InvokeContext.Direct), httpOut, all(interop.Reset.InvokeResponseMetrics), all(interop.Reset.InvokeResponseMode), all(interop.InvokeResponseMetrics.RuntimeCalledResponse)
 //@   ensures [bad-id] old(s.invokeCtx) == nil || invokeID != old(s.invokeCtx.Token.InvokeID) ==> r0 == interop.ErrInvalidInvokeID && noReplyWritten()
 //@   ensures [bad-id-no-effect] old(s.invokeCtx) != nil && invokeID != old(s.invokeCtx.Token.InvokeID) ==> unchanged(s.invokeCtx, s.invokeCtx.ReplySent, s.invokeCtx.ReplyStream, s.invokeCtx.Direct, s.invokeCtx.Token.InvokeID)
 //@   ensures [second] old(s.invokeCtx) != nil && invokeID == old(s.invokeCtx.Token.InvokeID) && old(s.invokeCtx.ReplySent) ==> r0 == interop.ErrResponseSent && noReplyWritten() && unchanged(s.invokeCtx, s.invokeCtx.ReplySent, s.invokeCtx.ReplyStream, s.invokeCtx.Direct)
@@ -99,3 +102,27 @@ package rapidcore
 //@ func (*Server).Invoke$2
 //@   safety on
 //@   requires s != nil && invoke != nil
+
+
+//@ func (*Server).SendResponse
+//@   modifies serverReply
+//@   ensures [bad-id] old(s.invokeCtx) == nil || invokeID != old(s.invokeCtx.Token.InvokeID) ==> r0 == interop.ErrInvalidInvokeID && noReplyWritten()
+//@   ensures [bad-id-no-effect] old(s.invokeCtx) != nil && invokeID != old(s.invokeCtx.Token.InvokeID) ==> unchanged(s.invokeCtx, s.invokeCtx.ReplySent, s.invokeCtx.ReplyStream, s.invokeCtx.Direct)
+//@   ensures [second] old(s.invokeCtx) != nil && invokeID == old(s.invokeCtx.Token.InvokeID) && old(s.invokeCtx.ReplySent) ==> r0 == interop.ErrResponseSent && noReplyWritten() && unchanged(s.invokeCtx, s.invokeCtx.ReplySent)
+//@   ensures [oversize] srvBuffered(s, invokeID) && !readFails(resp.Payload) && readerLen(resp.Payload) > interop.MaxPayloadSize ==> typeis(r0, *interop.ErrorResponseTooLarge) && r0.(*interop.ErrorResponseTooLarge).ResponseSize == readerLen(resp.Payload) && r0.(*interop.ErrorResponseTooLarge).MaxResponseSize == interop.MaxPayloadSize && noReplyWritten() && !s.invokeCtx.ReplySent
+//@   ensures [deliver] srvBuffered(s, invokeID) && !readFails(resp.Payload) && readerLen(resp.Payload) <= interop.MaxPayloadSize ==> ghost(httpWrites) == old(ghost(httpWrites)) + 1 && ghost(httpLastContent) == readerContent(resp.Payload) && ghost(httpLastWriter) == ref(old(s.invokeCtx.ReplyStream))
+//@   ensures [sent-only-on-success] srvBuffered(s, invokeID) ==> (s.invokeCtx.ReplySent <==> r0 == nil)
+//@   ensures [keeps-reservation] unchanged(s.invokeCtx)
+
+//@ func (*Server).SendErrorResponse
+//@   modifies serverReply
+//@   ensures [bad-id] old(s.invokeCtx) == nil || invokeID != old(s.invokeCtx.Token.InvokeID) ==> r0 == interop.ErrInvalidInvokeID && noReplyWritten()
+//@   ensures [bad-id-no-effect] old(s.invokeCtx) != nil && invokeID != old(s.invokeCtx.Token.InvokeID) ==> unchanged(s.invokeCtx, s.invokeCtx.ReplySent, s.invokeCtx.ReplyStream, s.invokeCtx.Direct)
+//@   ensures [second] old(s.invokeCtx) != nil && invokeID == old(s.invokeCtx.Token.InvokeID) && old(s.invokeCtx.ReplySent) ==> r0 == interop.ErrResponseSent && noReplyWritten() && unchanged(s.invokeCtx, s.invokeCtx.ReplySent)
+//@   ensures [deliver-error-body] srvBuffered(s, invokeID) && len(resp.Payload) <= interop.MaxPayloadSize ==> ghost(httpWrites) == old(ghost(httpWrites)) + 1 && ghost(httpLastContent) == contentOf(resp.Payload) && ghost(httpLastWriter) == ref(old(s.invokeCtx.ReplyStream))
+//@   ensures [sent-only-on-success] srvBuffered(s, invokeID) ==> (s.invokeCtx.ReplySent <==> r0 == nil)
+//@   ensures [keeps-reservation] unchanged(s.invokeCtx)
+
+//@ func (*Server).SendInitErrorResponse
+//@   modifies serverReply, s.cachedInitErrorResponse
+//@   ensures [cached-outside-invoke] true
